@@ -217,8 +217,18 @@ def find(
                     os.path.dirname(e["file"]),
                 )
                 if include_file:
-                    state.insert_file(include_file)
+                    # Like an #include on the first line of the file: parsed
+                    # in the language of the file it is included into.
+                    state.insert_file(
+                        include_file,
+                        state.langs[state._get_realpath(e["file"])],
+                    )
                     state.associate(include_file, file_platform)
+                else:
+                    log.warning(
+                        f"{e['file']}: user include '{include}' "
+                        + "(given with -include) not found",
+                    )
 
             # Process the file, to build a list of associate nodes
             state.associate(e["file"], file_platform)
